@@ -136,6 +136,12 @@ def run(prop, seed=0, verbose=True, only=None):
             else:
                 bad.append("mutant %s (%s) not reported as expected: status=%s %s" % (v.vid, v.why, status,
                                                                                      res[2][:3]))
+    run.last_summary = {"mutants_applicable": sum(1 for v, _ in todo if not v.benign), "mutants_detected": killed,
+                        "benign_variants": sum(1 for v, _ in todo if v.benign), "benign_silent": clean_benign,
+                        "not_applicable": na, "failures": bad, "wall_s": round(time.time() - t0, 2),
+                        "variants": [{"id": v.vid, "kind": "benign" if v.benign else "mutant",
+                                      "function": v.func, "why": v.why, "result": results[v.vid][1]}
+                                     for v, _ in todo]}
     if verbose:
         print("%s self-test: %d mutants detected, %d benign variants silent, %d not applicable, %d failures; %.1fs"
               % (prop, killed, clean_benign, len(na), len(bad), time.time() - t0))
